@@ -344,8 +344,9 @@ def validate_traces(ctx, module, per_case, max_steps, parallel, timeout):
         cfg = ctx.path("%s.c%d.cfg" % (module, ci))
         shutil.copy(os.path.join(vlib.SPECS, module + ".cfg"), cfg)
         r = ctx.tlc(module, cfg, workers=1, timeout=timeout, extra_files=[(tp, "trace.ndjson")], heap="3g")
-        os.remove(tp)
-        shutil.rmtree(r["dir"], ignore_errors=True)
+        if not os.environ.get("VERIF_KEEP"):
+            os.remove(tp)
+            shutil.rmtree(r["dir"], ignore_errors=True)
         if not r["vectors"]:
             raise vlib.Inconclusive("%s chunk %d produced no verdict:\n%s" % (module, ci, r["out"][-1500:]))
         v = r["vectors"][-1]
